@@ -3,6 +3,7 @@ import QuillModel.NamedArgs.ScanDet
 import QuillModel.NamedArgs.Split
 import QuillModel.NamedArgs.Pairs
 import QuillModel.NamedArgs.Json
+import QuillModel.NamedArgs.Message
 /-!
 # C19 — named placeholders: matching text, ordered key/value pairs, one JSON object per line
 
@@ -188,6 +189,34 @@ theorem C19_pairs_exact_partial {sep : Str} (hne : sep ≠ []) (hb : unbordered 
 example : let sep := [Char.ofNat 1, Char.ofNat 2, Char.ofNat 3]
     namedPairs sep false [(['a'], []), (['b'], ":>5".toList)] ["1".toList, "    x".toList, "7".toList]
       = [(['a'], ['1']), (['b'], "    x".toList), ("_2".toList, ['7'])] := by decide
+
+/-! ## the statement as a sink sees it -/
+
+/-- **C19, text and pairs of one statement (partial: both classes).** For a template of the grammar in both good
+    classes with a named placeholder, any cache state reachable by earlier lookups, at least as many arguments as
+    placeholders and no rendered value containing the separator: the message is the positional formatting of the
+    arguments — literal text, `{{`→`{`, `}}`→`}`, i-th placeholder = i-th argument rendered by its spec (`msgSpec`;
+    fmt's top level on the erased template, `fmtSubst_render`) — then sanitised / trailing newline cut; the pairs are
+    `(name_i, value_i)` in order of occurrence, `_i` for surplus arguments. -/
+theorem C19_statement_partial {sep : Str} (hne : sep ≠ []) (hb : unbordered sep = true) (san : Bool)
+    (c : Cache) (hc : CacheInv c) (ps : List Piece) (hw : wf ps = true) (hp : procOK ps = true)
+    (hd : detectOK ps = true) (hn : ps.any Piece.isNamed = true) (fv : List Str)
+    (hlen : (keysOf ps).length ≤ fv.length) (hv : ∀ v ∈ fv, containsSub sep v = false) :
+    (backendStep sep san c (render ps) fv).1 =
+      { msg := finishMsg san (msgSpec ps fv),
+        pairs := some ((populateNames (keysOf ps) fv.length).zip (if san then fv.map sanitize else fv)) } ∧
+    CacheInv (backendStep sep san c (render ps) fv).2 :=
+  backendStep_named hne hb san c hc ps hw hp hd hn fv hlen hv
+
+/-- a template without named placeholder goes to fmt as it is and yields no pairs -/
+theorem C19_statement_unnamed_partial (sep : Str) (san : Bool) (c : Cache) (ps : List Piece) (hw : wf ps = true)
+    (hd : detectOK ps = true) (hn : ps.any Piece.isNamed = false) (fv : List Str) :
+    backendStep sep san c (render ps) fv = ({ msg := finishMsg san (msgSpec ps fv), pairs := none }, c) :=
+  backendStep_unnamed sep san c ps hw hd hn fv
+
+example : let sep := [Char.ofNat 1, Char.ofNat 2, Char.ofNat 3]
+    (backendStep sep false [] "x {a} y {b:>5} {{z}}".toList ["1".toList, "    q".toList]).1
+      = { msg := some "x 1 y     q {z}".toList, pairs := some [(['a'], ['1']), (['b'], "    q".toList)] } := by decide
 
 /-! ## the JSON line -/
 
